@@ -87,6 +87,46 @@ def extract_binop_table(ctx, sym):
     return mod, expr, table
 
 
+def binop_cells_callable(ctx, sym, rule):
+    """Every cell of VALID_BINOP_TYPES (all rows, not only the core types) is called as cell(left, right) by
+    apply_binary_operation: it must be a function of two positional parameters (or a class whose constructor takes
+    two)."""
+    mod, expr, table = extract_binop_table(ctx, sym)
+    n = 0
+    for op, rows in table.items():
+        if not isinstance(rows, dict):
+            continue
+        for l, cols in rows.items():
+            if not isinstance(cols, dict):
+                continue
+            for r_, cell in cols.items():
+                n += 1
+                name = str(cell)
+                res = sym.resolve_name(mod, name) if name.isidentifier() else None
+                ok, why = True, ''
+                if isinstance(res, ClassInfo):
+                    init = sym.method(res, '__init__')
+                    params = [a.arg for a in init[1].args.args][1:] if init else []
+                    required = len(params) - len(init[1].args.defaults) if init else 0
+                    ok = init is not None and (len(params) >= 2 or init[1].args.vararg is not None) and required <= 2
+                    why = "class %s, whose constructor takes %s" % (name, params or 'no arguments')
+                elif isinstance(res, tuple) and res and res[0] == 'func':
+                    a_ = res[2].args
+                    params = [x.arg for x in a_.args]
+                    ok = (len(params) >= 2 or a_.vararg is not None) and len(params) - len(a_.defaults) <= 2
+                    why = "function %s(%s)" % (name, ', '.join(params))
+                elif name == '<lambda>':
+                    ok = True
+                else:
+                    ok, why = False, "%r, which does not resolve to a function or class" % name
+                ctx.check(ok, rule, 'VALID_BINOP_TYPES[%s][%s][%s]:callable' % (str(op).split('.')[-1], l, r_), mod,
+                          expr, "the cell is %s; apply_binary_operation calls it as cell(left, right), which raises "
+                          "TypeError" % why,
+                          "a program applying %s to a %s and a %s: TIFA ends with a system error instead of an "
+                          "analysis" % (str(op).split('.')[-1], l, r_), construct='VALID_BINOP_TYPES')
+    ctx.floor(rule, 'binary operator cells', n, 80)
+
+
 def r1_binop_table(ctx, sym):
     ctx.rule('R1', "VALID_BINOP_TYPES, exhaustively: (a) a core pair for which CPython raises TypeError on all "
                    "representatives has no cell (-> ImpossibleType -> incompatible_types); (b) a present cell's "
@@ -713,6 +753,7 @@ def run(ctx):
     if ctx.tier == 'thorough':
         REPS.update(THOROUGH_REPS)
     table = r1_binop_table(ctx, sym)
+    binop_cells_callable(ctx, sym, 'R1')
     r2_dispatch(ctx, sym, table)
     r3_comparisons(ctx, sym)
     r4_value_typing(ctx, sym)
